@@ -144,6 +144,24 @@ func (c *Checker) finish(evidPath string) int {
 			known[f.Rule+" / "+f.Func+" / "+f.Construct] = f
 		}
 	}
+	assumed := map[string]string{}
+	if b, err := os.ReadFile(filepath.Join(c.VerifDir, "assumed_safe.json")); err == nil {
+		var af struct {
+			AssumedSafe []struct {
+				Property, Rule, Function, Construct, Argument string
+			} `json:"assumed_safe"`
+		}
+		if err := json.Unmarshal(b, &af); err != nil {
+			fmt.Println("ERROR: assumed_safe.json:", err)
+			return 2
+		}
+		for _, a := range af.AssumedSafe {
+			if a.Property == c.Prop {
+				assumed[a.Rule+" / "+a.Function+" / "+a.Construct] = a.Argument
+			}
+		}
+	}
+	nAssumed := 0
 	sort.SliceStable(c.obs, func(i, j int) bool { return c.obs[i].Key() < c.obs[j].Key() })
 	var bad []Obligation
 	nProved, nKnown := 0, 0
@@ -154,7 +172,11 @@ func (c *Checker) finish(evidPath string) int {
 		case "proved":
 			nProved++
 		default:
-			if f, ok := known[o.Key()]; ok && o.Status == "violated" {
+			if arg, ok := assumed[o.Key()]; ok && o.Status == "violated" {
+				o.Status = "assumed-safe"
+				o.Detail = "hand argument: " + arg
+				nAssumed++
+			} else if f, ok := known[o.Key()]; ok && o.Status == "violated" {
 				o.Status = "known"
 				nKnown++
 				usedKnown[o.Key()] = true
@@ -264,8 +286,8 @@ func (c *Checker) finish(evidPath string) int {
 			return 2
 		}
 	}
-	fmt.Printf("%s %s: %d obligations, %d proved, %d known findings, %d failing; %d functions analysed; %.1fs\n",
-		c.Prop, c.Tier, len(c.obs), nProved, nKnown, len(bad), len(c.analysed), time.Since(c.start).Seconds())
+	fmt.Printf("%s %s: %d obligations, %d proved, %d known findings, %d assumed safe, %d failing; %d functions analysed; %.1fs\n",
+		c.Prop, c.Tier, len(c.obs), nProved, nKnown, nAssumed, len(bad), len(c.analysed), time.Since(c.start).Seconds())
 	if len(bad) > 0 {
 		return 1
 	}
